@@ -33,6 +33,7 @@ def run(rep: Report, repo: Repo):
     none_flow(rep, mod, methods)
     symmetry(rep, mod, methods)
     twins(rep, mod, methods)
+    geometry_evaluated(rep, repo, mod)
 
 
 def positional(rep, mod, G, methods, gnode):
@@ -339,6 +340,106 @@ def twins(rep, mod, methods):
     rep.ob('C20.twins', 'DefNet.vias: per via type all locations of every routed segment', ok)
     if not ok:
         rep.violate('C20.twins', mod, v, 'DefNet.vias', 'DefNet.vias must collect, per via type, the locations of all routed wire segments', node=v)
+
+
+def geometry_evaluated(rep, repo, mod):
+    """DefWire.wire_points / DefWire.vias and DefNet.wires / DefNet.vias evaluated (Engine M) on every routing-point list of
+    length <= 4 over a representative alphabet (explicit points incl. coordinate 0, `*` wildcards on either axis, an extension
+    value, vias without / with orientation, via arrays) against the DEF semantics written down here independently."""
+    import itertools
+    from kvstatic import minieval
+    rep.rule('C20.geometry', 'wire point lists and via lists of a routed segment, and the per-layer / per-via aggregation over a net, equal the DEF semantics '
+                             '(`*` keeps the previous coordinate, an explicit 0 does not; a via sits at the last location; DO x BY y STEP dx dy expands x-major) on all short routing lists')
+    dw = mod.cls('DefWire')
+    dn = mod.cls('DefNet')
+
+    def prop(cls, name):
+        for st in cls.body:
+            if isinstance(st, ast.FunctionDef) and st.name == name:
+                return st
+        raise AnchorError(f'def_file.{cls.name}.{name} vanished')
+    f_wp, f_v, f_nw, f_nv = prop(dw, 'wire_points'), prop(dw, 'vias'), prop(dn, 'wires'), prop(dn, 'vias')
+    first = [(3, 4), (0, 7)]
+    alpha = [(5, 6), (None, 9), (0, None), (8, 0), (None, None, 2), ('v1', None), ('v1', 'S'), ('v2', (2, 1, 10, 20)), ('v1', (1, 2, 3, 4))]
+
+    def spec_points(pts):
+        out = [pts[0]]
+        for p in pts[1:]:
+            if isinstance(p[0], str):
+                continue
+            prev = out[-1]
+            out.append((prev[0] if p[0] is None else p[0], prev[1] if p[1] is None else p[1]) + tuple(p[2:]))
+        return out if len(out) > 1 else []
+
+    def spec_vias(pts):
+        vv = {}
+        loc = pts[0]
+        for p in pts[1:]:
+            if not isinstance(p[0], str):
+                loc = (loc[0] if p[0] is None else p[0], loc[1] if p[1] is None else p[1])
+                continue
+            name, par = p
+            if isinstance(par, tuple):
+                xc, yc, xs, ys = par
+                for x in range(xc):
+                    for y in range(yc):
+                        vv.setdefault(name, []).append((loc[0] + x * xs, loc[1] + y * ys, 'N'))
+            else:
+                vv.setdefault(name, []).append((loc[0], loc[1], par if par else 'N'))
+        return vv
+    bad = None
+    n = 0
+    try:
+        segs = []
+        for f0 in first:
+            for k in range(0, 4):
+                for rest in itertools.product(alpha, repeat=k):
+                    if k == 3 and n % 3:      # thin out the longest lists
+                        n += 1
+                        continue
+                    n += 1
+                    pts = [f0] + list(rest)
+                    me = minieval.NS(points=pts, layer='M1', width=None)
+                    for what, fdef, spec in (('wire_points', f_wp, spec_points), ('vias', f_v, spec_vias)):
+                        try:
+                            got = minieval.call_function(fdef, [me])
+                            got = dict(got) if isinstance(got, dict) else got
+                        except (IndexError, KeyError, TypeError, ValueError, AttributeError) as e:
+                            got = f'{type(e).__name__}'
+                        want = spec(pts)
+                        if got != want and bad is None:
+                            bad = (f'DefWire.{what}', pts, got, want)
+                    if len(segs) < 40 and k >= 1:
+                        segs.append(pts)
+        # aggregation over a net: segments on two layers, widths given or not
+        for a, b in itertools.islice(itertools.combinations(segs, 2), 60):
+            n += 1
+            wires = [minieval.NS(points=a, layer='M1', width=None, wire_points=spec_points(a), vias=spec_vias(a)),
+                     minieval.NS(points=b, layer='M2', width='120', wire_points=spec_points(b), vias=spec_vias(b)),
+                     minieval.NS(points=a, layer='M2', width=None, wire_points=spec_points(a), vias=spec_vias(a))]
+            net = minieval.NS(routed=wires)
+            want_w = {}
+            want_v = {}
+            for w in wires:
+                if len(w.wire_points) > 0:
+                    want_w.setdefault(w.layer, []).append((int(w.width) if w.width is not None else None, w.wire_points))
+                for vt, locs in w.vias.items():
+                    want_v.setdefault(vt, []).extend(locs)
+            for what, fdef, want in (('wires', f_nw, want_w), ('vias', f_nv, want_v)):
+                try:
+                    got = dict(minieval.call_function(fdef, [net]))
+                except (IndexError, KeyError, TypeError, ValueError, AttributeError) as e:
+                    got = f'{type(e).__name__}'
+                if got != want and bad is None:
+                    bad = (f'DefNet.{what}', [w.points for w in wires], got, want)
+    except ModelError as e:
+        rep.note(f'C20.geometry: outside the evaluator subset ({e}); covered by the structural rules C20.none / C20.symmetry only')
+        return
+    ok = bad is None
+    rep.ob('C20.geometry', f'evaluated on {n} routing lists / nets', ok, evals=n)
+    if not ok:
+        rep.violate('C20.geometry', mod, bad[0], bad[0], f'{bad[0]}: for the routing points {bad[1]} the property yields {str(bad[2])[:200]} but the DEF semantics give {str(bad[3])[:200]}',
+                    witness={'points': str(bad[1]), 'got': str(bad[2]), 'want': str(bad[3])})
 
 
 def thorough(rep, repo):
